@@ -102,6 +102,8 @@ class Kernel:
     def __init__(self, seed=1, epoch=1700000000, workdir=None):
         self.rng = random.Random(seed)
         self.epoch_us = epoch * 1000000
+        self.epoch0_us = self.epoch_us    # the wall clock as it would read had it never been stepped
+        self.stepped_back_s = 0           # whole seconds the wall clock was set back in all (clock_step)
         self.now = 0                      # virtual microseconds since scenario start
         self.heap = []
         self.seq = 0
@@ -137,6 +139,16 @@ class Kernel:
 
     def abs_now(self):
         return self.epoch_us + self.now
+
+    def clock_step(self, seconds):
+        """The wall clock (what time() returns) is set back by a whole number of seconds - an NTP step, a manual correction.
+        Timeouts and everything else that is relative go on undisturbed."""
+        seconds = int(seconds)
+        if seconds <= 0:
+            return
+        self.epoch_us -= seconds * 1000000
+        self.stepped_back_s += seconds
+        self.emit("clock_step", "kernel", seconds_back=seconds)
 
     def time_s(self):
         return self.abs_now() // 1000000
